@@ -320,6 +320,8 @@ def run(ctx):
     finally:
         try:
             extra_oracles.root_containers(ctx)
+            from .. import extra_oracles3
+            extra_oracles3.rootfinder_round6(ctx)
         except Exception as ex:       # the oracle itself must never hide the result of the check proper
             ctx.obligation('oracle:extra:raised', False, 'correspondence', repr(ex))
             ctx.violation('oracle:extra:raised:' + type(ex).__name__, 'container oracle raised ' + repr(ex), {'repro': '# see tools/vf/extra_oracles.py'})
